@@ -75,6 +75,21 @@ func (r *Report) add(rule, where, construct string, pos string, v Verdict, nontr
 	return o
 }
 
+// rollback drops the obligations recorded since mark (= len(r.Obs) at the time): a rule that could not decide
+// by one method hands over to another.
+func (r *Report) rollback(mark int) {
+	for _, o := range r.Obs[mark:] {
+		k := o.Key
+		if i := strings.LastIndex(k, "#"); i >= 0 {
+			k = k[:i]
+		}
+		if r.keys[k] > 0 {
+			r.keys[k]--
+		}
+	}
+	r.Obs = r.Obs[:mark]
+}
+
 func (r *Report) holds(rule, where, construct, pos, reason string) {
 	r.add(rule, where, construct, pos, Holds, true, reason)
 }
